@@ -359,8 +359,8 @@ int main(int argc, char **argv) {
   vp::install_crash_handler();
   quiet_crab();
   bool th = vp::args().thorough();
-  int depth_core = vp::args().opt.count("depth-core") ? atoi(vp::args().opt["depth-core"].c_str()) : (th ? 5 : 4);
-  int depth_ext = vp::args().opt.count("depth-ext") ? atoi(vp::args().opt["depth-ext"].c_str()) : (th ? 4 : 3);
+  int depth_core = vp::args().opt.count("depth-core") ? atoi(vp::args().opt["depth-core"].c_str()) : (th ? 7 : 6);
+  int depth_ext = vp::args().opt.count("depth-ext") ? atoi(vp::args().opt["depth-ext"].c_str()) : (th ? 5 : 4);
   build_alphabet();
   DOM = find_domain("wrapped_int");
   if (!DOM) { fprintf(stderr, "domain wrapped_int not registered\n"); return 2; }
